@@ -85,6 +85,10 @@ class VQueue:
         # may legitimately keep a Manager queue (inside a cached executor, say) across runs
         self.name = name
         self.capacity = maxsize if maxsize and maxsize > 0 else None
+        if self.capacity is not None and getattr(world, 'queue_scale', None):
+            # small-scope scaling: a bounded queue of N behaves, for runs that outgrow it, like a
+            # bounded queue of a few slots does for the small runs explored here
+            self.capacity = min(self.capacity, world.queue_scale)
         self.buf: collections.deque = collections.deque()
         VQueue._ids += 1
         self.qid = VQueue._ids
@@ -113,7 +117,10 @@ class VQueue:
                 if pending >= self.capacity:
                     if not block or timeout is not None:
                         raise _queue.Full()
-                    raise HarnessError('virtual child would block forever on a full bounded queue')
+                    # a blocking put on a full queue: the worker waits until the parent has made room;
+                    # from here on its effects are ordered behind that wait
+                    w.current_child.script.append(('put', self, pickle.dumps(item)))
+                    return
             data = pickle.dumps(item)     # Manager queues pickle what they carry
             if self.mode() == 'eager':
                 self.buf.append(pickle.loads(data))
@@ -668,8 +675,9 @@ class VWorld:
     """State of the virtual OS for one execution."""
 
     def __init__(self, chooser, *, cpu_count=2, log_mode='eager', die_labels=(), die_exit0=False,
-                 max_idle=1, liveness_choice=True, terminate_choice=False, threaded=False):
+                 max_idle=1, liveness_choice=True, terminate_choice=False, threaded=False, queue_scale=None):
         self.chooser = chooser
+        self.queue_scale = queue_scale
         self.sched: Optional[TSched] = TSched(self) if threaded else None
         self.cpu_count = cpu_count
         self.log_mode = log_mode
@@ -887,6 +895,9 @@ class VWorld:
             child.pc += 1
             if ev[0] == 'put':
                 q = ev[1]
+                if q.capacity is not None and len(q.buf) >= q.capacity:
+                    child.pc -= 1          # blocked in put() until somebody takes an item off the queue
+                    return
                 q.buf.append(pickle.loads(ev[2]))
                 if q is self.result_queue:
                     child.result_committed = True
@@ -967,11 +978,19 @@ class VWorld:
                 out.append((ch, i))
         return out
 
+    def blocked_in_put(self, ch: VChild) -> bool:
+        if ch.pc < len(ch.script):
+            ev = ch.script[ch.pc]
+            return ev[0] == 'put' and ev[1].capacity is not None and len(ev[1].buf) >= ev[1].capacity
+        return False
+
     def something_can_happen(self) -> bool:
         if self.frozen:
             return False
         for ch in self.children:
             if ch.state == 'running' and (getattr(ch, 'doomed', False) or ch.self_killed or ch.result_put_index(self) is not None):
+                if self.blocked_in_put(ch):
+                    continue
                 return True
         return False
 
@@ -1070,6 +1089,14 @@ class VWorld:
             raise _queue.Empty()
         ch, idx = cands[c - (1 if allow_empty else 0)]
         self.commit_upto(ch, idx)
+        if not q.buf:
+            # the worker did not get as far as this put: it is blocked on another, full queue
+            if is_result and blocking:
+                self.stuck_rounds += 1
+                if self.stuck_rounds > 3:
+                    self.record('livelock')
+                    raise Livelock()
+            raise _queue.Empty()
         self.idle_rounds = 0
         self.stuck_rounds = 0
         self.delivered_this_round = True
